@@ -22,6 +22,15 @@ theorem imports_preserved (m o : ModuleM) (h : roundTripModule m = some o) :
   let c := roundTrip_components m o h
   ⟨c.importsLen, c.imports⟩
 
+/-- **function imports keep their signature**: where the input imports a function of type index
+    `t`, the output imports, at the same position and under the same names, a function whose type
+    index names the same signature in the output's type section — through type de-duplication and
+    the sorted type section -/
+theorem function_imports_keep_their_signature (m o : ModuleM) (h : roundTripModule m = some o) :
+    ∀ (k : Nat) (a b : String) (t : Nat), m.imports[k]? = some (a, b, .func t) →
+      ∃ t' sg, o.imports[k]? = some (a, b, .func t') ∧ m.sigs[t]? = some sg ∧ o.sigs[t']? = some sg :=
+  roundTrip_import_sigs m o h
+
 /-- local tables and memories are emitted as they came in -/
 theorem tables_and_memories_preserved (m o : ModuleM) (h : roundTripModule m = some o) :
     o.tables = m.tables ∧ o.mems = m.mems :=
@@ -45,7 +54,8 @@ theorem global_initialisers_preserved (m o : ModuleM) (h : roundTripModule m = s
   (roundTrip_components m o h).globals
 
 /-- exports: same number, order, names and kinds; non-function targets unchanged; function targets
-    and the start function renamed by one and the same map -/
+    and the start function renamed by one and the same map, which is injective (two exports name
+    the same function after the round trip only if they did before) -/
 theorem exports_and_start_preserved (m o : ModuleM) (h : roundTripModule m = some o) :
     o.exports.length = m.exports.length ∧
     (∀ (k : Nat) (e : String × String × Nat), m.exports[k]? = some e →
@@ -54,11 +64,12 @@ theorem exports_and_start_preserved (m o : ModuleM) (h : roundTripModule m = som
     ∃ ρ : List (Nat × Nat),
       (∀ (k : Nat) (e : String × String × Nat), m.exports[k]? = some e → e.2.1 = "f" →
         ∃ e' : String × String × Nat, o.exports[k]? = some e' ∧ assoc ρ e.2.2 = some e'.2.2) ∧
-      (∀ s, m.start = some s → ∃ s', o.start = some s' ∧ assoc ρ s = some s') :=
+      (∀ s, m.start = some s → ∃ s', o.start = some s' ∧ assoc ρ s = some s') ∧
+      (∀ a b x : Nat, assoc ρ a = some x → assoc ρ b = some x → a = b) :=
   let c := roundTrip_components m o h
   ⟨c.exportsLen, c.exports, c.startSome, by
-    obtain ⟨ρ, h1, h2, _⟩ := c.funcRenaming
-    exact ⟨ρ, h1, h2⟩⟩
+    obtain ⟨ρ, h1, h2, _, _, h5⟩ := c.funcRenaming
+    exact ⟨ρ, h1, h2, h5⟩⟩
 
 /-- segments: nothing added or dropped; data payloads, modes and target memories unchanged, the
     offset expression of an active data segment kept operator for operator (`CExprKept`) -/
@@ -78,13 +89,14 @@ theorem segments_preserved (m o : ModuleM) (h : roundTripModule m = some o) :
     the input's renamed, one by one and in order, by the *same* map that renames the function
     operands of the exports and of the start section; the offset expression of an active segment
     and every expression item are kept operator for operator (`CExprKept`): a table slot, an export and the start
-    section that named one function before the round trip name one function after it -/
+    section that named one function before the round trip name one function after it, and (the map being injective)
+    two that named different functions still do -/
 theorem element_segments_preserved (m o : ModuleM) (h : roundTripModule m = some o) :
     ∃ ρ : List (Nat × Nat),
       (∀ (k : Nat) (e : String × String × Nat), m.exports[k]? = some e → e.2.1 = "f" →
         ∃ e' : String × String × Nat, o.exports[k]? = some e' ∧ assoc ρ e.2.2 = some e'.2.2) ∧
       (∀ s, m.start = some s → ∃ s', o.start = some s' ∧ assoc ρ s = some s') ∧
-      ∀ (k : Nat) (e : ElemM), m.elems[k]? = some e → ∃ e' : ElemM, o.elems[k]? = some e' ∧
+      (∀ (k : Nat) (e : ElemM), m.elems[k]? = some e → ∃ e' : ElemM, o.elems[k]? = some e' ∧
         (match e.mode with
          | .active t off => ∃ t' off', e'.mode = .active t' off' ∧ t'.getD 0 = t.getD 0 ∧ CExprKept off off'
          | .passive => e'.mode = .passive
@@ -93,9 +105,10 @@ theorem element_segments_preserved (m o : ModuleM) (h : roundTripModule m = some
          | .funcs fs => ∃ fs', e'.items = .funcs fs' ∧ fs'.length = fs.length ∧
              ∀ (i f : Nat), fs[i]? = some f → ∃ f', fs'[i]? = some f' ∧ assoc ρ f = some f'
          | .exprs ty es => ∃ es', e'.items = .exprs ty es' ∧ es'.length = es.length ∧
-             ∀ (i : Nat) (c : CExprM), es[i]? = some c → ∃ c', es'[i]? = some c' ∧ CExprKept c c') := by
-  obtain ⟨ρ, h1, h2, _, h4⟩ := (roundTrip_components m o h).funcRenaming
-  refine ⟨ρ, h1, h2, ?_⟩
+             ∀ (i : Nat) (c : CExprM), es[i]? = some c → ∃ c', es'[i]? = some c' ∧ CExprKept c c')) ∧
+      (∀ a b x : Nat, assoc ρ a = some x → assoc ρ b = some x → a = b) := by
+  obtain ⟨ρ, h1, h2, _, h4, h5⟩ := (roundTrip_components m o h).funcRenaming
+  refine ⟨ρ, h1, h2, ?_, h5⟩
   intro k e hk
   obtain ⟨e', he', hmode, hitems⟩ := h4 k e hk
   refine ⟨e', he', hmode, ?_⟩
